@@ -516,14 +516,65 @@ def describe(d):
     out = []
     for k, (r, s_, em) in sorted(d.items(), key=lambda x: repr(x[0])):
         asm = ", ".join("%s=%s" % (a[0][0] if isinstance(a[0], tuple) else a[0], a[1]) for a in sorted(k, key=repr))
-        out.append("[%s] result=%s state=%s emits=%s" % (asm, short(r), short(s_), short(em)))
+        out.append("%s%s; next state %s; emits %s" % ("[if %s] " % asm if asm else "", short(r), short(s_), short(em)))
     return " || ".join(out)
 
 
 def short(x):
-    s_ = repr(x)
-    s_ = s_.replace("'lin', ", "").replace("'idx', ", "")
-    return s_ if len(s_) < 260 else s_[:260] + "…"
+    s_ = pretty(x)
+    return s_ if len(s_) < 400 else s_[:400] + "…"
+
+
+def pretty(x):
+    """readable rendering of a normalised outcome component"""
+    if x is None:
+        return "-"
+    if isinstance(x, tuple) and x and x[0] == "lin":
+        terms, const = x[1], x[2]
+        parts = []
+        for (k, v) in terms:
+            nm = {"cur": "cur", "len": "len", "p0": "payload0", "p1": "payload1", "p2": "payload2", "n": "depth"}.get(k, k)
+            parts.append(nm if v == 1 else "%d*%s" % (v, nm))
+        if const or not parts:
+            parts.append(str(const))
+        return "+".join(parts).replace("+-", "-")
+    if isinstance(x, tuple) and x and isinstance(x[0], str):
+        tag = x[0]
+        rest = x[1:]
+        if tag == "idx":
+            return pretty(rest[0])
+        if tag == "state":
+            return "%s(%s)" % (rest[0], ", ".join(pretty(a) for a in rest[1]))
+        if tag == "count":
+            return "depth=" + pretty(rest[0])
+        if tag == "tok":
+            return "%s(%s)" % (pretty(rest[0]) if not isinstance(rest[0], str) else rest[0], ", ".join(pretty(a) for a in rest[1:]))
+        if tag == "struct":
+            return "{%s}" % ", ".join("%s: %s" % (k, pretty(v)) for (k, v) in rest[1])
+        if tag == "text":
+            return "src[%s..%s]" % (pretty(rest[0]), pretty(rest[1]))
+        if tag == "dollarless":
+            return "dollarless(%s)" % pretty(rest[0])
+        if tag == "reserved-token-of":
+            return "keyword-token-of(%s)" % pretty(rest[0])
+        if tag == "kikierr":
+            return "%s(%s)" % (rest[0], ", ".join(pretty(a) for a in rest[1:]))
+        if tag == "some":
+            return "Some(%s)" % pretty(rest[0])
+        if tag == "none":
+            return "None"
+        if tag == "char":
+            return repr(rest[0])
+        if tag in ("ok",):
+            return "Ok"
+        if tag == "err":
+            return "Err(%s)" % ", ".join(pretty(a) for a in rest)
+        if tag == "finish-error":
+            return "<error from the bracket scan>"
+        return "%s(%s)" % (tag, ", ".join(pretty(a) for a in rest))
+    if isinstance(x, (tuple, list)):
+        return "[%s]" % ", ".join(pretty(a) for a in x)
+    return str(x)
 
 
 def check(ctx):
